@@ -173,6 +173,7 @@ def shapeOf (m : M) : String :=
     dispatched while a fake (function pointer) frame is on top. -/
 def tick (m : M) : Bool × M :=
   match m.cs with
+  | [] => (false, m)             -- no frame: C code of the driver is running, not LPC
   | ⟨.fake, _⟩ :: _ => (false, m)
   | _ =>
     if m.fault == 1 then (true, { m with fault := 0, shape := some (shapeOf m) })
@@ -572,6 +573,20 @@ def runTop (ob : Val) (pre : List (Reg × Val)) (p : Prog) (k : Nat) (m0 : M) : 
     let wasErr := match r with | .err _ => true | _ => false
     match topFinish econ m0.ctxs r with
     | .ok m5 => { before := m0, after := { m5 with fault := 0 }, result := if wasErr then "fault-top" else "done 1" }
+    | .err m5 => { before := m0, after := m5, result := "crash longjmp" }
+    | .crash why m5 => { before := m0, after := m5, result := "crash " ++ why }
+
+/-- a driver-level evaluation that is C code calling back into LPC itself (the real `call_out()` run by the backend):
+    save_context; the ops (which contain their own recovery points); recovery; pop_context -/
+def runDriver (p : Prog) (k : Nat) (m0 : M) : TopResult :=
+  let m0 := { m0 with out := [], shape := none, fault := 0 }
+  match saveContext m0 with
+  | none => { before := m0, after := m0, result := "too-deep" }
+  | some (econ, m1) =>
+    let r := exec p { m1 with fault := k }
+    let wasErr := match r with | .err _ => true | _ => false
+    match topFinish econ m0.ctxs r with
+    | .ok m5 => { before := m0, after := { m5 with fault := 0 }, result := if wasErr then "fault-top" else "done co" }
     | .err m5 => { before := m0, after := m5, result := "crash longjmp" }
     | .crash why m5 => { before := m0, after := m5, result := "crash " ++ why }
 
